@@ -22,10 +22,12 @@ impl PartialOrd for Version {
     #[verifier::external_body]
     fn partial_cmp(&self, o: &Version) -> Option<std::cmp::Ordering> { unimplemented!() }
 }
-pub broadcast axiom fn axiom_version_ord(a: Version, b: Version)
+pub broadcast axiom fn axiom_version_ord_obeys()
+    ensures #[trigger] <Version as vstd::std_specs::cmp::PartialOrdSpec<Version>>::obeys_partial_cmp_spec();
+pub broadcast axiom fn axiom_version_ord_spec(a: Version, b: Version)
     ensures
-        <Version as vstd::std_specs::cmp::PartialOrdSpec<Version>>::obeys_partial_cmp_spec(),
         #[trigger] a.partial_cmp_spec(&b) == (if a.0 < b.0 { Some(std::cmp::Ordering::Less) } else if a.0 == b.0 { Some(std::cmp::Ordering::Equal) } else { Some(std::cmp::Ordering::Greater) });
+pub broadcast group axiom_version_ord { axiom_version_ord_obeys, axiom_version_ord_spec }
 
 // ---- http::Method: an opaque token; `CONNECT` is one distinguished value ----
 #[derive(PartialEq, Eq, Structural)]
@@ -43,20 +45,26 @@ impl<'a> PartialEq<Method> for &'a Method {
     #[verifier::external_body]
     fn eq(&self, o: &Method) -> bool { unimplemented!() }
 }
-pub broadcast axiom fn axiom_method_ref_eq(a: &Method, b: Method)
-    ensures
-        <&Method as vstd::std_specs::cmp::PartialEqSpec<Method>>::obeys_eq_spec(),
-        #[trigger] a.eq_spec(&b) == (*a == b);
+pub broadcast axiom fn axiom_method_ref_eq_obeys()
+    ensures #[trigger] <&Method as vstd::std_specs::cmp::PartialEqSpec<Method>>::obeys_eq_spec();
+pub broadcast axiom fn axiom_method_ref_eq_spec(a: &Method, b: Method)
+    ensures #[trigger] <&Method as vstd::std_specs::cmp::PartialEqSpec<Method>>::eq_spec(&a, &b) == (*a == b);
+pub broadcast group axiom_method_ref_eq { axiom_method_ref_eq_obeys, axiom_method_ref_eq_spec }
 
 // ---- http::uri::{Scheme, Authority, PathAndQuery}: opaque, compared as values ----
-#[verifier::external_body]
-pub struct Scheme { _p: () }
+/// schemes are opaque tokens; `HTTP` and `HTTPS` are two distinguished values
+#[derive(PartialEq, Eq, Structural)]
+pub struct Scheme(pub u64);
 impl Scheme {
-    /// the scheme is `https`
-    pub uninterp spec fn is_https(&self) -> bool;
-    // exec constant as an associated const of an opaque type is not expressible; `Scheme::HTTPS` is
-    // provided as a transparent wrapper below (SchemeConst) - see `Scheme::HTTPS`.
+    pub const HTTP: Scheme = Scheme(0);
+    pub const HTTPS: Scheme = Scheme(1);
 }
+/// the derived `PartialEq` of Scheme is structural equality (used through `Option<&Scheme> == Option<&Scheme>`)
+pub broadcast axiom fn axiom_scheme_eq_obeys()
+    ensures #[trigger] <Scheme as vstd::std_specs::cmp::PartialEqSpec<Scheme>>::obeys_eq_spec();
+pub broadcast axiom fn axiom_scheme_eq_spec(a: Scheme, b: Scheme)
+    ensures #[trigger] a.eq_spec(&b) == (a == b);
+pub broadcast group axiom_scheme_eq { axiom_scheme_eq_obeys, axiom_scheme_eq_spec }
 impl Clone for Scheme {
     #[verifier::external_body]
     fn clone(&self) -> (r: Self) ensures r == *self { unimplemented!() }
@@ -104,7 +112,7 @@ impl HeaderName {
     /// here whenever the text differs (see `axiom_static_names`)
     pub uninterp spec fn of_static(s: Seq<char>) -> HeaderName;
     #[verifier::external_body]
-    pub const fn from_static(s: &'static str) -> (r: HeaderName) ensures r == HeaderName::of_static(s@) { unimplemented!() }
+    pub const fn from_static(s: &'static str) -> (r: HeaderName) ensures r == HeaderName::of_static(s@) { HeaderName(200u8.wrapping_add(s.len() as u8)) }
 }
 impl Clone for HeaderName {
     #[verifier::external_body]
@@ -194,6 +202,66 @@ impl Uri {
         ensures r is Some <==> self.pq_s() is Some, r is Some ==> *r->0 == self.pq_s()->0
     { unimplemented!() }
 }
+impl Uri {
+    /// `Uri::from_parts` (assumed): parts without a scheme are valid unless they carry both an authority and a
+    /// path (so authority-only and path-only parts are valid); anything else may fail.  On success
+    /// the components are the given ones; a path-and-query that renders as "/" may be normalised away.
+    #[verifier::external_body]
+    pub fn from_parts(parts: UriParts) -> (r: Result<Uri, InvalidUriParts>)
+        ensures
+            parts.scheme is None && !(parts.authority is Some && parts.path_and_query is Some) ==> r is Ok,
+            r is Ok ==> r->Ok_0.scheme_s() == parts.scheme && r->Ok_0.authority_s() == parts.authority,
+            r is Ok && parts.path_and_query is Some && parts.path_and_query->0.text() != "/"@
+                ==> r->Ok_0.pq_s() == parts.path_and_query,
+            r is Ok && parts.path_and_query is None && parts.scheme is None ==> r->Ok_0.pq_s() is None,
+    { unimplemented!() }
+    /// the URI `/`
+    pub uninterp spec fn slash() -> Uri;
+    #[verifier::external_body]
+    pub fn default() -> (r: Uri) ensures r == Uri::slash() { unimplemented!() }
+    /// the URI as text (`Display`)
+    pub uninterp spec fn text(&self) -> Seq<char>;
+}
+/// `Uri::default()` is the origin-form URI "/": no scheme, no authority, path "/"
+pub broadcast axiom fn axiom_uri_slash()
+    ensures
+        #[trigger] Uri::slash().scheme_s() is None, Uri::slash().authority_s() is None,
+        Uri::slash().pq_s() is Some, Uri::slash().pq_s()->0.text() == "/"@, Uri::slash().text() == "/"@;
+/// `impl PartialEq<&str> for Uri`: compares the text
+impl<'a> PartialEq<&'a str> for Uri {
+    #[verifier::external_body]
+    fn eq(&self, o: &&'a str) -> bool { unimplemented!() }
+}
+pub broadcast axiom fn axiom_uri_str_eq_obeys()
+    ensures #[trigger] <Uri as vstd::std_specs::cmp::PartialEqSpec<&str>>::obeys_eq_spec();
+pub broadcast axiom fn axiom_uri_str_eq_spec(a: Uri, b: &str)
+    ensures #[trigger] a.eq_spec(&b) == (a.text() == b@);
+pub broadcast group axiom_uri_str_eq { axiom_uri_str_eq_obeys, axiom_uri_str_eq_spec }
+#[verifier::external_body]
+pub struct InvalidUriParts { _p: () }
+impl std::fmt::Debug for InvalidUriParts {
+    #[verifier::external_body]
+    fn fmt(&self, f: &mut std::fmt::Formatter<'_>) -> std::fmt::Result { unimplemented!() }
+}
+/// `http::uri::Parts` (public fields; the private marker field is omitted)
+pub struct UriParts {
+    pub scheme: Option<Scheme>,
+    pub authority: Option<Authority>,
+    pub path_and_query: Option<PathAndQuery>,
+}
+impl UriParts {
+    pub fn default() -> (r: UriParts)
+        ensures r.scheme is None && r.authority is None && r.path_and_query is None
+    { UriParts { scheme: None, authority: None, path_and_query: None } }
+}
+/// `http::request::Parts` (the head of a request): only the URI is read by the extracted code
+pub struct RequestParts {
+    pub method: Method,
+    pub uri: Uri,
+    pub version: Version,
+    pub headers: HeaderMap,
+    pub extensions: Extensions,
+}
 impl Clone for Uri {
     #[verifier::external_body]
     fn clone(&self) -> (r: Self) ensures r == *self { unimplemented!() }
@@ -259,7 +327,11 @@ pub broadcast axiom fn axiom_request_ext<B>(a: Request<B>, b: Request<B>)
 pub mod http {
     pub use super::{Version, Method, Uri, Request, HeaderMap, HeaderName, HeaderValue, Extensions};
     pub mod uri {
-        pub use super::super::{Scheme, Authority, PathAndQuery};
+        pub use super::super::{Scheme, Authority, PathAndQuery, InvalidUriParts};
+        pub use super::super::UriParts as Parts;
+    }
+    pub mod request {
+        pub use super::super::RequestParts as Parts;
     }
     pub mod header {
         pub use super::super::{HeaderName, HeaderValue};
